@@ -1,6 +1,7 @@
 """C10 Transfer mechanism matches the denomination's marker type (R-write/messages, R-guard mechanism<->marker, R-origin parties)."""
 from engine import *
 PROP = 'C10'
+THOROUGH_UNMERGED = True     # thorough tier re-runs the rules with every marker-query outcome as a separate path
 
 ESCROW_IN = {'CreateAsk', 'CreateBid', 'ApproveAsk'}   # requests that pull funds in; all other messages are payouts
 
